@@ -5,8 +5,9 @@
    The touch predicate T is the implementation's own (exported as a matrix by the harness); its
    relation to the exact predicate nf(r+r') >= |z-z'| is C07_touch_* below. *)
 From Coq Require Import List Arith Bool Permutation ZArith Reals Lia.
-From Flocq Require Import Core.
+From Flocq Require Import Core BinarySingleNaN.
 From MPSV Require Import Cluster.ClusterModel Cluster.ClusterProps Cluster.ClusterSpec Cluster.Touch Cluster.TouchFlocq.
+From MPSV Require Import Cluster.FtouchModel Cluster.FtouchSpec.
 Import ListNotations.
 Local Open Scope nat_scope.
 
@@ -173,6 +174,36 @@ Theorem C07_dtouch_sound_partial : forall u nf ri rj dx dy a b e1 e2 e4 m : R,
   ((D * (1 + 8 * u) <= L)%R -> (m <= coded)%R) /\ ((L * (1 + 8 * u) < D)%R -> (coded < m)%R).
 Proof. exact dtouch_sound. Qed.
 Print Assumptions C07_dtouch_sound_partial.
+
+(* ---------------------------------------------------------------- mps_ftouchnwt end to end on binary64
+   FtouchModel.ftouch_b64 follows touch.c / mt.c operation by operation on Flocq's binary64 (guard DBL_MAX/(2n), cplx_sub,
+   cplx_mod of the builtin-complex configuration, product by n, comparison); it is compared bit for bit with the real
+   functions on every run (bin/ftouch).  exactL = n (ri + rj), exactD = |zi - zj| on the real values of the inputs. *)
+
+(* a radius at or above t = DBL_MAX / (2 n) is treated as infinite: true whatever the centres are (safe side) *)
+Theorem C07_ftouch_b64_guard : forall n ri rj xi yi xj yj,
+  fge ri (ftouch_guard n) = true \/ fge rj (ftouch_guard n) = true ->
+  ftouch_b64 n ri rj xi yi xj yj = true.
+Proof. exact ftouch_b64_guard. Qed.
+Print Assumptions C07_ftouch_b64_guard.
+
+Example C07_ex_guard :
+  to_bits (ftouch_guard 3) = 9206858838221083989%Z (* 0x7fc5555555555555 = DBL_MAX / 6 *) /\
+  ftouch_b64 3 (ftouch_guard 3) fzero fzero fzero DBL_MAX DBL_MAX = true /\
+  ftouch_b64 3 (Bpred (ftouch_guard 3)) fzero fzero fzero DBL_MAX DBL_MAX = false.
+Proof. split; [|split]; vm_compute; reflexivity. Qed.
+
+(* REFUTED: "separated by more than 8u => false" does not hold when both components of zi - zj are subnormal: the last
+   product of cplx_mod has no relative accuracy below 2^-1022.  Witness n = 1, frad = {2^-1074, 0}, zi = (2^-1074, 2^-1074),
+   zj = 0: sqrt(2) 2^-1074 is computed as 2^-1074.  Replayed on the real function by the check (known/C07.json);
+   the answer errs on the safe side (the discs stay in one cluster). *)
+Theorem C07_ftouch_subnormal_refuted :
+  exists n ri rj xi yi xj yj,
+    n_ok n /\ finite6 ri rj xi yi xj yj /\ (0 <= B2R ri)%R /\ (0 <= B2R rj)%R /\ below_guard n ri rj /\
+    (exactL n ri rj * (1 + 8 * u64) < exactD xi yi xj yj)%R /\
+    ftouch_b64 n ri rj xi yi xj yj = true.
+Proof. exact ftouch_subnormal_refuted. Qed.
+Print Assumptions C07_ftouch_subnormal_refuted.
 
 (* ---------------------------------------------------------------- non-vacuity *)
 (* chain 0-1-2 (0 and 2 do not touch), 3 isolated, all in one old cluster listed 0,2,1,3:
